@@ -65,7 +65,7 @@ func init() {
 
 func init() {
 	register(&PropCheck{
-		ID: "C08", Pkgs: []string{"compression/lz4", "compression/snappy"}, FnRe: `^VerifC08_`, Level: "model_checking",
+		ID: "C08", Pkgs: []string{"compression/lz4", "compression/snappy", "segment"}, FnRe: `^VerifC08_`, Level: "model_checking",
 		Rule: "one harness per (algorithm, input length, compressed-length policy); content bytes symbolic; compressed length chosen by the contract stub (all allowed values for short inputs, extreme ratios for long ones)",
 		Assume: []string{"lz4.CompressBlock/UncompressBlock and snappy.Encode/Decode meet their documented contract (lossless, length-carrying, 1 <= k <= bound, never panic); the stubs are validated against the real libraries natively on every run"},
 	})
